@@ -78,6 +78,10 @@ func (w *speller) ws() string {
 		return " " + comments[w.st.R.IntN(len(comments))] + " "
 	case 5:
 		return "\r\n"
+	case 6:
+		// several comments in one gap, with and without blanks between them
+		a, b := comments[w.st.R.IntN(len(comments))], comments[w.st.R.IntN(len(comments))]
+		return a + []string{"", " ", "\n", "\t "}[w.st.R.IntN(4)] + b
 	}
 	return " "
 }
